@@ -42,7 +42,11 @@ func declKey(info *types.Info, d *ast.FuncDecl) string {
 		t = ix.X
 	}
 	if id, ok := t.(*ast.Ident); ok {
-		return "(" + star + id.Name + ")." + d.Name.Name
+		name := id.Name
+		if a, ok := typeAlias[name]; ok {
+			name = a
+		}
+		return "(" + star + name + ")." + d.Name.Name
 	}
 	return d.Name.Name
 }
@@ -117,7 +121,7 @@ func normalizeHelpers(repo, tags, path string, known func(key string) bool) (map
 						if _, isFn := t.Underlying().(*types.Signature); isFn {
 							takesFunc[obj] = true // only a problem when called from a WriteTo / ReadFrom (codec closure)
 						}
-						switch types.TypeString(t, nil) {
+						switch tstr(t, nil) {
 						case "io.Reader", "io.Writer", "io.ReaderFrom", "io.WriterTo":
 							streamy = true
 						}
